@@ -381,6 +381,7 @@ Proof.
   - (* Pratt *) apply (proj1 (pratt_mi (go n) IH g ops ctx n)).
   - (* GroupArr *) apply group_loop_mi; exact IH.
   - (* NestedIn *) rewrite HQ. reflexivity.
+  - (* WithState *) rewrite HQ. reflexivity.
   - (* Skip *) reflexivity.
   - (* ExtWrap *) crush IH.
 Qed.
